@@ -224,6 +224,48 @@ def run(chk):
                                  replay=replay_mesh("inertia_tensor"))
     _tasks.append(("inertia_tensor_about_the_origin", lambda c_, f_=sec_4: f_()))
 
+    def sec_5():
+        """Polyhedron._surface_triangulation (the generator every surface integral and is_inside consume) delegates, face by face in the order of the
+        faces, to the vendored triangulator with exactly that face's vertex coordinates, and passes its triangles on unchanged"""
+        pm = ld.load("coxeter.shapes.polyhedron")
+        fk5 = chk.function(MODP, "Polyhedron._surface_triangulation")
+        calls = []
+        token = object()
+
+        class Tri:
+            @staticmethod
+            def triangulate(verts, *a, **k):
+                calls.append((verts, a, k))
+                yield token
+
+        def run_st():
+            calls.clear()
+            o = H.polyhedron(shapes)
+            del o.__dict__["_surface_triangulation"]          # the real generator, not the state's stub
+            old = pm.polytri
+            pm.polytri = Tri
+            try:
+                out = [t for t in o._surface_triangulation()]
+            finally:
+                pm.polytri = old
+            return out, list(calls), o._vertices, o._faces
+        for p in chk.explore(fk5, run_st, assumptions=facts):
+            if p.kind != "return":
+                chk.path_raised(fk5, p)
+                continue
+            out, cs, verts, faces = p.value
+            seq = getattr(out, "sym", None)
+            one_call = len(cs) == 1 and not cs[0][1] and not cs[0][2]
+            want = verts[faces.elem] if one_call else None
+            same = one_call and isinstance(cs[0][0], SymArr) and cs[0][0].axes == want.axes and \
+                all(to_expr(a) == to_expr(b) for a, b in zip(cs[0][0].inner.reshape(-1), want.inner.reshape(-1)))
+            passes = (seq is not None and seq.dim is H.F and seq.elem is token) or (isinstance(out, list) and len(out) == 1 and out[0] is token)   # generic face
+            chk.record("surface_triangulation:one_call_of_the_triangulator_per_face_with_that_faces_vertices", fk5, "proved" if same else "refuted", "call-trace",
+                       detail=f"{len(cs)} calls per face", model={}, replay=replay_mesh("centroid"), abstracted=True)
+            chk.record("surface_triangulation:passes_the_triangles_on_unchanged_in_the_order_of_the_faces", fk5, "proved" if passes else "refuted", "call-trace",
+                       detail=str(type(out).__name__), model={}, replay=replay_mesh("centroid"), abstracted=True)
+    _tasks.append(("surface_triangulation_delegates_to_the_triangulator", lambda c_, f_=sec_5: f_()))
+
     chk.run_parallel(_tasks)
 
     chk.reachable("Inv_Polyhedron facts", "coxeter.shapes.polyhedron::Polyhedron.centroid[get]", facts)
